@@ -147,6 +147,7 @@ func samePath(a, b ssa.Value) bool {
 }
 
 func runC04(c *Ctx) {
+	c.notExistMeansAbsent("N22")
 	c.rule("N1", "every descent (list / recurse) on a path that can be a child is preceded by Lstat of that path with the is-link side not reaching the descent; listing-only functions pass the obligation to their call sites", 3)
 	c.rule("N2", "a successful return justified by a link-following Exists()==false is preceded by the Lstat link test on the same path", 2)
 	c.rule("N4", "entries matching an exclusion pattern survive: the pattern list is compiled in full (NewExclusionRegexList leaves its loops only at the end of the list or on an error)", 1)
